@@ -1,0 +1,160 @@
+//go:build verif
+
+package harfbuzz
+
+import "github.com/go-text/typesetting/font"
+
+// Verification hooks (property C12): the font-space to user-space conversions of fonts.go and the
+// default positioning of ot_shaper.go.  Every function below only calls the real (unexported)
+// function and returns its result; nothing is recomputed here.
+
+// VerifEmScalef is emScalef.
+func VerifEmScalef(v float32, scale, faceUpem int32) Position { return emScalef(v, scale, faceUpem) }
+
+// VerifEmFscale is emFscale.
+func VerifEmFscale(v int16, scale, faceUpem int32) float32 { return emFscale(v, scale, faceUpem) }
+
+// VerifRoundf is roundf.
+func VerifRoundf(f float32) Position { return roundf(f) }
+
+// VerifUpem returns the cached units per em of the font (set by NewFont).
+func (f *Font) VerifUpem() int32 { return f.faceUpem }
+
+// VerifSetUpem overrides the cached units per em: the face answers in font units whatever this
+// value is, so that every (upem, scale) pair can be exercised on a real face.
+func (f *Font) VerifSetUpem(upem int32) { f.faceUpem = upem }
+
+func (f *Font) VerifEmScaleX(v int16) Position    { return f.emScaleX(v) }
+func (f *Font) VerifEmScaleY(v int16) Position    { return f.emScaleY(v) }
+func (f *Font) VerifEmScalefX(v float32) Position { return f.emScalefX(v) }
+func (f *Font) VerifEmScalefY(v float32) Position { return f.emScalefY(v) }
+func (f *Font) VerifEmFscaleX(v int16) float32    { return f.emFscaleX(v) }
+func (f *Font) VerifEmFscaleY(v int16) float32    { return f.emFscaleY(v) }
+
+func (f *Font) VerifGlyphVAdvance(g GID) Position { return f.getGlyphVAdvance(g) }
+func (f *Font) VerifGlyphHOrigin(g GID) (Position, Position) {
+	return f.getGlyphHOriginWithFallback(g)
+}
+
+func (f *Font) VerifGlyphVOrigin(g GID) (Position, Position) {
+	return f.getGlyphVOriginWithFallback(g)
+}
+
+func (f *Font) VerifGlyphOriginForDirection(g GID, d Direction) (Position, Position) {
+	return f.getGlyphOriginForDirection(g, d)
+}
+
+func (f *Font) VerifSubtractGlyphOriginForDirection(g GID, d Direction, x, y Position) (Position, Position) {
+	return f.subtractGlyphOriginForDirection(g, d, x, y)
+}
+
+func (f *Font) VerifSubtractGlyphHOrigin(g GID, x, y Position) (Position, Position) {
+	return f.subtractGlyphHOrigin(g, x, y)
+}
+
+func (f *Font) VerifSubtractGlyphVOrigin(g GID, x, y Position) (Position, Position) {
+	return f.subtractGlyphVOrigin(g, x, y)
+}
+
+func (f *Font) VerifAddGlyphHOrigin(g GID, x, y Position) (Position, Position) {
+	return f.addGlyphHOrigin(g, x, y)
+}
+
+func (f *Font) VerifGuessVOriginMinusHOrigin(g GID) (Position, Position) {
+	return f.guessVOriginMinusHOrigin(g)
+}
+func (f *Font) VerifHExtentsAscender() Position             { return f.getHExtendsAscender() }
+func (f *Font) VerifHExtentsWithFallback() font.FontExtents { return f.fontHExtentsWithFallback() }
+
+// VerifPosGlyph is what the positioning functions read of one GlyphInfo.
+type VerifPosGlyph struct {
+	Glyph     GID
+	Cluster   int
+	Mark      bool  // isMark()
+	Ignorable bool  // isDefaultIgnorable()
+	Space     bool  // isUnicodeSpace() && !ligated(): the glyphs fallbackSpaces looks at
+	SpaceType uint8 // getUnicodeSpaceFallbackType()
+	UMark     bool  // unicode.generalCategory() == nonSpacingMark: the glyphs fallbackMarkPosition moves and zeroes
+}
+
+// VerifPosTrace is the state of one shaping call around otContext.position.
+type VerifPosTrace struct {
+	Dir                  Direction       // buffer.Props.Direction while positioning (after ensureNativeDirection)
+	Glyphs               []VerifPosGlyph // buffer.Info when position() starts
+	SpaceFallback        bool            // scratchFlags & bsfHasSpaceFallback
+	HasDefaultIgnorables bool            // scratchFlags & bsfHasDefaultIgnorables
+	Flags                ShappingOptions // buffer.Flags
+	Invisible            GID             // buffer.Invisible
+	// the plan
+	ZeroMarks, AdjustMarks, FallbackMarks                                    bool
+	MarkBehavior                                                             uint8
+	ApplyGpos, ApplyKerx, ApplyKern, ApplyFallbackKern, ApplyTrak, ApplyMorx bool
+	// results
+	Default    []GlyphPosition // buffer.Pos after clearPositions + positionDefault
+	Final      []GlyphPosition // buffer.Pos after position()
+	FinalInfo  []GID           // glyph ids of buffer.Info after position() (reversed for backward directions)
+	FinalClust []int
+}
+
+func verifPosCopy(b *Buffer) []GlyphPosition { return append([]GlyphPosition(nil), b.Pos...) }
+
+// VerifPositionStages shapes the buffer like Buffer.Shape and records what otContext.positionDefault
+// and otContext.position (both the real methods) do.  The statements around the two calls are the
+// ones of shaperOpentype.shape, which has no seam between its stages; they are not under test, and
+// the driver compares the buffer this function leaves with the one a plain Buffer.Shape call leaves.
+func (b *Buffer) VerifPositionStages(font *Font, features []Feature) VerifPosTrace {
+	shapePlan := b.newShapePlanCached(font, b.Props, features, font.varCoords())
+	sp := &shapePlan.shaper
+	c := otContext{plan: &sp.plan, font: font, buffer: b, userFeatures: features}
+	c.buffer.scratchFlags = bsfDefault
+	c.buffer.maxOps = max(len(c.buffer.Info)*1024, 16384)
+	c.buffer.maxLen = max(len(c.buffer.Info)*64, 16384)
+	c.targetDirection = c.buffer.Props.Direction
+	c.initializeMasks()
+	c.buffer.setUnicodeProps()
+	c.buffer.insertDottedCircle(c.font)
+	c.buffer.formClusters()
+	c.buffer.ensureNativeDirection()
+	c.plan.shaper.preprocessText(c.plan, c.buffer, c.font)
+	c.substituteBeforePosition()
+
+	var tr VerifPosTrace
+	tr.Dir = b.Props.Direction
+	tr.Glyphs = make([]VerifPosGlyph, len(b.Info))
+	for i := range b.Info {
+		inf := &b.Info[i]
+		tr.Glyphs[i] = VerifPosGlyph{
+			Glyph: inf.Glyph, Cluster: inf.Cluster, Mark: inf.isMark(), Ignorable: inf.isDefaultIgnorable(),
+			Space: inf.isUnicodeSpace() && !inf.ligated(), SpaceType: inf.getUnicodeSpaceFallbackType(),
+			UMark: inf.unicode.generalCategory() == nonSpacingMark,
+		}
+	}
+	tr.SpaceFallback = b.scratchFlags&bsfHasSpaceFallback != 0
+	tr.HasDefaultIgnorables = b.scratchFlags&bsfHasDefaultIgnorables != 0
+	tr.Flags = b.Flags
+	tr.Invisible = b.Invisible
+	tr.ZeroMarks, tr.AdjustMarks, tr.FallbackMarks = c.plan.zeroMarks, c.plan.adjustMarkPositioningWhenZeroing, c.plan.fallbackMarkPositioning
+	mb, _ := c.plan.shaper.marksBehavior()
+	tr.MarkBehavior = uint8(mb)
+	tr.ApplyGpos, tr.ApplyKerx, tr.ApplyKern = c.plan.applyGpos, c.plan.applyKerx, c.plan.applyKern
+	tr.ApplyFallbackKern, tr.ApplyTrak, tr.ApplyMorx = c.plan.applyFallbackKern, c.plan.applyTrak, c.plan.applyMorx
+
+	// positionDefault alone (position() below starts over with clearPositions + positionDefault)
+	c.buffer.clearPositions()
+	c.positionDefault()
+	tr.Default = verifPosCopy(b)
+
+	c.position()
+	tr.Final = verifPosCopy(b)
+	tr.FinalInfo = make([]GID, len(b.Info))
+	tr.FinalClust = make([]int, len(b.Info))
+	for i := range b.Info {
+		tr.FinalInfo[i], tr.FinalClust[i] = b.Info[i].Glyph, b.Info[i].Cluster
+	}
+
+	c.substituteAfterPosition()
+	propagateFlags(c.buffer)
+	c.buffer.Props.Direction = c.targetDirection
+	c.buffer.maxOps = maxOpsDefault
+	return tr
+}
